@@ -335,7 +335,7 @@ def run_check(pid, tier, verif_seed, procs, budget_s, max_runs=None, quiet_ok=Fa
     return exit_code
 
 
-def report_violation(pid, pool, unknown, max_candidates=6, min_args=()):
+def report_violation(pid, pool, unknown, max_candidates=20, min_args=()):
     """minimise, write the replay file and confirm it in a fresh interpreter.  A violation that only shows because of state
     that an earlier run left in the worker process (a cache inside the SUT) does not reproduce from its decision list in a
     fresh interpreter: such a candidate is skipped and the next violating run is tried; a minimised list that stops
@@ -343,7 +343,13 @@ def report_violation(pid, pool, unknown, max_candidates=6, min_args=()):
     lines = []
     skipped = 0
     last_out = ''
-    for r, new in unknown[:max_candidates]:
+    # diverse candidates first: one per (clause, scenario family), then the rest
+    seen, first, rest = set(), [], []
+    for r, new in unknown:
+        key = (new[0]['clause'], (r.get('sample') or {}).get('family'))
+        (rest if key in seen else first).append((r, new))
+        seen.add(key)
+    for r, new in (first + rest)[:max_candidates]:
         clause = new[0]['clause']
         # 1. does the full decision list reproduce in a fresh interpreter?
         full = {'ok': True, 'overrides': dict(r['taken']), 'execs': 0}
